@@ -91,7 +91,15 @@ def gen(tier, seed, chunk, nch):
             while npos < want:
                 argv.append(rng.choice(POST))
                 npos += 1
-        cases.append({"decl": d, "argv": argv, "cfg": ci, "rand": True})
+        case = {"decl": d, "argv": argv, "cfg": ci, "rand": True}
+        if rng.random() < 0.3:
+            # earlier calls on the same parser: too many positionals, an unknown option behind positionals,
+            # a value missing behind positionals, an empty vector, an accepted vector
+            case["earlier"] = [rng.choice([[b"s0", b"s1", b"s2", b"s3", b"s4"], [b"s0", b"s1", b"--nope"],
+                                           [b"s0", b"--opt"], [], [b"s0"], [b"--", b"s0", b"-x"],
+                                           [b"s0", b"--", b"s1", b"s2", b"s3", b"s4", b"s5"]])
+                               for _ in range(rng.randint(1, 2))]
+        cases.append(case)
     return cases
 
 
@@ -100,7 +108,9 @@ def script(cid, case):
 
 
 def evaluate(case, lines, S):
-    line = next((l for l in lines if l.startswith("P ")), None)
+    line = optoracle.judged_line(lines)
+    if case.get("earlier"):
+        S.counters["judged-parse-on-a-parser-with-a-history"] += 1
     if line is None:
         S.inconc.append("no parse line")
         return
